@@ -1204,6 +1204,90 @@ func c20Spaces(c *fw.Ctx) {
 			}
 		})
 
+	// Dedup groups by text, not by IsDuplicate: records of a registered private type (whose isDuplicate is constant
+	// false, like OPT's) with the same text are one group all the same.
+	c.Space("dedup-private", "all lists of length ≤ 4 over the pool {private-type record P with TTL 5, P with TTL 2, the same type with another payload (TTL 7), an MX record (TTL 3)} (records of a type registered through PrivateHandle never compare as duplicates, Dedup goes by their text): one representative per group in input order, the first record of the group, carrying the group's smallest TTL; non-trivial: the list holds P twice", true,
+		func(emit func(func(*fw.R))) {
+			mk := func(i int) dns.RR {
+				if i == 3 {
+					return &dns.MX{Hdr: dns.RR_Header{Name: "other.example.org.", Rrtype: dns.TypeMX, Class: dns.ClassINET, Ttl: 3}, Preference: 10, Mx: "mail.example.org."}
+				}
+				p := dns.TypeToRR[c01PrivType]().(*dns.PrivateRR)
+				p.Hdr = dns.RR_Header{Name: "p.example.org.", Rrtype: c01PrivType, Class: dns.ClassINET, Ttl: []uint32{5, 2, 7}[i]}
+				p.Data = &c01PrivRdata{[]byte([]string{"same", "same", "other"}[i])}
+				return p
+			}
+			group := []int{0, 0, 1, 2}
+			var lists [][]int
+			var rec func(cur []int)
+			rec = func(cur []int) {
+				if len(cur) > 0 {
+					lists = append(lists, append([]int(nil), cur...))
+				}
+				if len(cur) == 4 {
+					return
+				}
+				for i := 0; i < 4; i++ {
+					rec(append(cur, i))
+				}
+			}
+			rec(nil)
+			for _, l := range lists {
+				l := l
+				emit(func(r *fw.R) {
+					dns.PrivateHandle("VPRIV", c01PrivType, func() dns.PrivateRdata { return new(c01PrivRdata) })
+					defer dns.PrivateHandleRemove(c01PrivType)
+					in := make([]dns.RR, len(l))
+					type grp struct {
+						first int
+						ttl   uint32
+					}
+					g := map[int]*grp{}
+					var order []int
+					nP := 0
+					for pos, idx := range l {
+						in[pos] = mk(idx)
+						if group[idx] == 0 {
+							nP++
+						}
+						ttl := in[pos].Header().Ttl
+						if e, ok := g[group[idx]]; ok {
+							if ttl < e.ttl {
+								e.ttl = ttl
+							}
+							continue
+						}
+						g[group[idx]] = &grp{pos, ttl}
+						order = append(order, group[idx])
+					}
+					if nP > 1 {
+						r.Nontrivial()
+					}
+					orig := append([]dns.RR(nil), in...)
+					out := dns.Dedup(in, nil)
+					show := func() string {
+						var o []string
+						for _, x := range out {
+							o = append(o, x.String())
+						}
+						return fmt.Sprintf("pool indices %v; result %q", l, o)
+					}
+					if len(out) != len(order) {
+						r.Fail("dedup/length/private", "Dedup returned %d records, expected %d (one per group of equal text); %s", len(out), len(order), show())
+						return
+					}
+					for i, id := range order {
+						e := g[id]
+						if out[i] != orig[e.first] {
+							r.Fail("dedup/representative/private", "result[%d] is not the first input record of its group (input position %d); %s", i, e.first, show())
+						} else if out[i].Header().Ttl != e.ttl {
+							r.Fail("dedup/ttl/private", "result[%d] has TTL %d, the smallest TTL of its group is %d; %s", i, out[i].Header().Ttl, e.ttl, show())
+						}
+					}
+				})
+			}
+		})
+
 	c.Space("xtype", "all ordered pairs of base records of all types (same owner, class, TTL), built and from the wire: duplicates exactly when the types are equal; one case per first type, all are non-trivial", true,
 		func(emit func(func(*fw.R))) {
 			for i := range all {
